@@ -3,7 +3,7 @@ TITLE = 'Variant-effect functions evaluate exactly the string-level edited seque
 CONTRACT_MODULES = ['contracts.utils_c', 'contracts.variant_c']
 FUNCTIONS = ['tangermeme.variant_effect.deletion_effect#keep-mask', 'tangermeme.variant_effect.substitution_effect']
 BOUNDED = 'bounded.C10'
-BOUNDED_BUDGET = {'quick': 60, 'thorough': 600}
+BOUNDED_BUDGET = {'quick': 120, 'thorough': 600}
 LEVEL = 'other'
 EXPLANATION = ('deductive: keep-mask of deletion_effect as a fragment contract over the real statements between the deletion scatter and the mask compaction, for any 0/1 deletion matrix, both trim sides (prefix-sum and max axioms): kept iff undeleted and beyond the equalising trim flank; a deleted position is never kept; substitution_effect (whole function): whenever it returns, y_before = func(X) and y_after = func(X with every table row (e, p, c) applied as the one-hot column c at position p of example e, other positions untouched), X unwritten (advanced stores as existentially quantified updates). bounded: mask compaction, rejection of conflicting substitution tables, insertion_effect, before-trimming, refusal of variant lists that cannot be honoured - string-level oracle with an identity func')
 ASSUMPTIONS = ['the deletion scatter yields a 0/1 matrix (bounded)', 'boolean-mask compaction X[mask].reshape keeps rows aligned when every example keeps the same count (bounded)']
